@@ -406,8 +406,17 @@ func TestVerif_C13_roundtrip(t *testing.T) {
 	defer kit.S().Flush()
 	defer kit.CleanupScratch()
 	r := newC13RT(t)
-	defer r.h.Close()
+	defer func() { r.h.Close() }()
+	cases := 0
 	rapid.Check(t, func(t *rapid.T) {
+		// every new namespace makes the hub persist its whole namespace table again: with one hub
+		// for a long run the store grows quadratically (gigabytes). A fresh hub every 100 cases.
+		if cases++; cases%100 == 0 {
+			r.sweep(t)
+			kit.S().AddExtra("roundtrip_namespaces", len(r.p2exp))
+			r.h.Close()
+			r = newC13RT(t)
+		}
 		n := rapid.IntRange(10, 40).Draw(t, "n")
 		for i := 0; i < n; i++ {
 			u := c13GenURI(t)
